@@ -139,16 +139,19 @@ def conv_cases(ck):
     for t in range(n):
         dims = 3 if t % 4 == 3 else 2
         rf = rng.randrange(1, 4) if dims == 2 else rng.randrange(1, 3)
+        rfs = [rf] * dims
+        if dims == 3 and t % 8 == 3:
+            rfs = [rng.randrange(1, 4) for _ in range(3)]
         C = rng.randrange(1, 4)
         depth = rng.randrange(1, 4)
         K = rng.randrange(1, 4)
-        P = rf ** dims * C
+        P = int(np.prod(rfs)) * C
         s = 2 ** depth
         torch.manual_seed(ck.seed * 13 + t)
         log = []
         kw = dict(in_dim=4 if dims == 2 else 3, device="cpu", channels=C, num_kernels=K, tree_depth=depth,
-                  receptive_field_size=rf, connections="random-unique")
-        case = {"scheme": "conv-random-unique", "dims": dims, "rf": rf, "channels": C, "depth": depth, "kernels": K}
+                  receptive_field_size=rf if len(set(rfs)) == 1 else tuple(rfs), connections="random-unique")
+        case = {"scheme": "conv-random-unique", "dims": dims, "rf": rfs, "channels": C, "depth": depth, "kernels": K}
         try:
             with record_draws(log):
                 l = (LogicConv2d if dims == 2 else LogicConv3d)(**kw)
@@ -168,10 +171,10 @@ def conv_cases(ck):
             B = [tuple(v) for v in pb[k].tolist()]
             prs = list(zip(A, B))
             if any(x == y for x, y in prs) or len({frozenset(p) for p in prs}) != len(prs) or \
-                    any(not (0 <= c < lim) for x in A + B for c, lim in zip(x, [rf] * dims + [C])):
+                    any(not (0 <= c < lim) for x in A + B for c, lim in zip(x, rfs + [C])):
                 ck.disagree("conv 'random-unique' wiring has a degenerate, repeated or out-of-field pair",
                             dict(case, kernel=k, pairs=prs), signature={"scheme": "conv", "what": "invariant"})
-            items.append((dims, rf, C, s, perms[k], A, B))
+            items.append((dims, rfs, C, s, perms[k], A, B))
         # tree levels
         for level in range(1, depth + 1):
             li, ri = l.indices[level]
@@ -193,9 +196,19 @@ def conv_cases(ck):
     for t in range(10 if ck.tier == "quick" else 60):
         dims = 2 if t % 2 else 3
         rf, C, depth = rng.randrange(1, 3), rng.randrange(1, 3), rng.randrange(1, 3)
-        l = (LogicConv2d if dims == 2 else LogicConv3d)(in_dim=3, device="cpu", channels=C, num_kernels=2, tree_depth=depth,
-                                                        receptive_field_size=rf, connections="random", padding=rng.randrange(0, 2))
-        ck.case({"scheme": "conv-random", "dims": dims, "rf": rf, "channels": C, "depth": depth, "padding": l.padding}, kind=f"conv{dims}d-random")
+        rf_arg = rf
+        if dims == 3 and t % 4 == 0:
+            rf_arg = tuple(rng.sample([1, 2, 3], 3))
+        in_dim = 3 if dims == 2 else (4, 4, 4)
+        l = (LogicConv2d if dims == 2 else LogicConv3d)(in_dim=in_dim, device="cpu", channels=C, num_kernels=2, tree_depth=depth + 1,
+                                                        receptive_field_size=rf_arg, connections="random", padding=rng.randrange(0, 2))
+        ck.case({"scheme": "conv-random", "dims": dims, "rf": rf_arg, "channels": C, "depth": depth, "padding": l.padding}, kind=f"conv{dims}d-random")
+        field = (list(rf_arg) if isinstance(rf_arg, tuple) else [rf] * dims) + [C]
+        for kp in l.kernel_pairs:
+            mxp = kp.reshape(-1, dims + 1).max(0).values.tolist()
+            if any(v >= L for v, L in zip(mxp, field)):
+                ck.disagree("kernel pair lies outside the receptive field", {"dims": dims, "rf": rf_arg, "max": mxp, "field": field},
+                            signature={"scheme": "conv", "what": "field"})
         ia, ib = l.indices[0]
         lim = [x + 2 * l.padding for x in l.in_dim] + [C]
         for tt_ in (ia, ib):
@@ -209,17 +222,17 @@ def conv_cases(ck):
         txt = ("From Coq Require Import List Arith. Import ListNotations.\nFrom TLX Require Import Model.Wiring.\n"
                "Definition show (dims : list nat) (o : option (list (nat * nat))) := option_map (map (fun p => (unravel dims (fst p), unravel dims (snd p)))) o.\n"
                "Eval vm_compute in [" + ";\n ".join(
-                   f"show {natl([rf] * dims + [C])} (conv_unique_pairs {rf ** dims * C} {s} {natl(perm)})"
-                   for dims, rf, C, s, perm, _, _ in chunk) + "].\n")
+                   f"show {natl(rfs + [C])} (conv_unique_pairs {int(np.prod(rfs)) * C} {s} {natl(perm)})"
+                   for dims, rfs, C, s, perm, _, _ in chunk) + "].\n")
         rc, out, err = ck.coq_eval("c13c", txt)
         if rc != 0:
             ck.broke("correspondence", "kernel evaluation (conv unique)", err[-500:])
             continue
-        for (dims, rf, C, s, perm, A, B), mv in zip(chunk, coqio.parse_evals(out)[0]):
+        for (dims, rfs, C, s, perm, A, B), mv in zip(chunk, coqio.parse_evals(out)[0]):
             ck.count("model_vs_impl_conv_unique")
             got = [(list(a), list(b)) for a, b in zip(A, B)]
             if mv is None or [(list(a), list(b)) for a, b in mv] != got:
-                ck.broke("correspondence", "Model/Wiring.conv_unique_pairs", f"dims={dims} rf={rf} C={C} s={s}: model {mv} implementation {got}")
+                ck.broke("correspondence", "Model/Wiring.conv_unique_pairs", f"dims={dims} rf={rfs} C={C} s={s}: model {mv} implementation {got}")
 
 
 def run(ck: Check):
